@@ -361,6 +361,204 @@ def documentedNtuple : List (String × List String) :=
     ("memory_info", ["pmem"]), ("memory_full_info", ["pfullmem", "pmem"]),
     ("num_ctx_switches", ["pctxsw"]), ("io_counters", ["pio"]) ]
 
+/-! ## 3b. The native side of the record layout: the C call that builds each record (round 2)
+
+  REVIEWED correspondence tables, written by reading the C sources slot name by slot name
+  (struct member ↔ slot name: `ki_ruid` real uid, `ki_uid` effective uid, `ki_svuid` saved uid,
+  `ki_rgid` real gid, `ki_groups[0]` effective gid, `ru_nvcsw` / `ru_nivcsw` voluntary / involuntary
+  context switches, `ru_inblock` / `ru_oublock` block reads / writes, `pr_rssize` resident size,
+  `pr_size` image size, `pr_nlwp` number of lwps, `pti_csw` context switches, `HandleCount`, …).
+  Expressions are normalised by the translator: comments and one leading cast dropped, no blanks.
+  ODDITY kept as it is in the C source (native layer, outside the statement; characterised by
+  `C20_native_saved_gid_characterisation`): on the three BSDs the slot the Python side calls
+  `saved_gid` is filled from the saved *uid* member (`ki_svuid` / `p_svuid`). -/
+
+/-- (slot map, identity) → for every slot name the C expression `Py_BuildValue` is given at that slot -/
+def slotCExpr : List ((String × String) × List (String × String)) :=
+  [
+    (("aix.proc_info_map", "aix"),
+      [ ("ppid", "info.pr_ppid"),
+        ("rss", "info.pr_rssize"),
+        ("vms", "info.pr_size"),
+        ("create_time", "TV2DOUBLE(info.pr_start)"),
+        ("nice", "info.pr_lwp.pr_nice"),
+        ("num_threads", "info.pr_nlwp"),
+        ("status", "status.pr_stat"),
+        ("ttynr", "info.pr_ttydev") ]),
+    (("bsd.kinfo_proc_map", "freebsd"),
+      [ ("ppid", "py_ppid"),
+        ("status", "kp.ki_stat"),
+        ("real_uid", "kp.ki_ruid"),
+        ("effective_uid", "kp.ki_uid"),
+        ("saved_uid", "kp.ki_svuid"),
+        ("real_gid", "kp.ki_rgid"),
+        ("effective_gid", "kp.ki_groups[0]"),
+        ("saved_gid", "kp.ki_svuid"),
+        ("ttynr", "kp.ki_tdev"),
+        ("create_time", "PSUTIL_TV2DOUBLE(kp.ki_start)"),
+        ("ctx_switches_vol", "kp.ki_rusage.ru_nvcsw"),
+        ("ctx_switches_unvol", "kp.ki_rusage.ru_nivcsw"),
+        ("read_io_count", "kp.ki_rusage.ru_inblock"),
+        ("write_io_count", "kp.ki_rusage.ru_oublock"),
+        ("user_time", "PSUTIL_TV2DOUBLE(kp.ki_rusage.ru_utime)"),
+        ("sys_time", "PSUTIL_TV2DOUBLE(kp.ki_rusage.ru_stime)"),
+        ("ch_user_time", "PSUTIL_TV2DOUBLE(kp.ki_rusage_ch.ru_utime)"),
+        ("ch_sys_time", "PSUTIL_TV2DOUBLE(kp.ki_rusage_ch.ru_stime)"),
+        ("rss", "rss"),
+        ("vms", "vms"),
+        ("memtext", "memtext"),
+        ("memdata", "memdata"),
+        ("memstack", "memstack"),
+        ("cpunum", "oncpu"),
+        ("name", "py_name") ]),
+    (("bsd.kinfo_proc_map", "openbsd"),
+      [ ("ppid", "py_ppid"),
+        ("status", "kp.p_stat"),
+        ("real_uid", "kp.p_ruid"),
+        ("effective_uid", "kp.p_uid"),
+        ("saved_uid", "kp.p_svuid"),
+        ("real_gid", "kp.p_rgid"),
+        ("effective_gid", "kp.p_groups[0]"),
+        ("saved_gid", "kp.p_svuid"),
+        ("ttynr", "kp.p_tdev"),
+        ("create_time", "PSUTIL_KPT2DOUBLE(kp.p_ustart)"),
+        ("ctx_switches_vol", "kp.p_uru_nvcsw"),
+        ("ctx_switches_unvol", "kp.p_uru_nivcsw"),
+        ("read_io_count", "kp.p_uru_inblock"),
+        ("write_io_count", "kp.p_uru_oublock"),
+        ("user_time", "PSUTIL_KPT2DOUBLE(kp.p_uutime)"),
+        ("sys_time", "PSUTIL_KPT2DOUBLE(kp.p_ustime)"),
+        ("ch_user_time", "kp.p_uctime_sec+kp.p_uctime_usec/1000000.0"),
+        ("ch_sys_time", "kp.p_uctime_sec+kp.p_uctime_usec/1000000.0"),
+        ("rss", "rss"),
+        ("vms", "vms"),
+        ("memtext", "memtext"),
+        ("memdata", "memdata"),
+        ("memstack", "memstack"),
+        ("cpunum", "oncpu"),
+        ("name", "py_name") ]),
+    (("bsd.kinfo_proc_map", "netbsd"),
+      [ ("ppid", "py_ppid"),
+        ("status", "kp.p_stat"),
+        ("real_uid", "kp.p_ruid"),
+        ("effective_uid", "kp.p_uid"),
+        ("saved_uid", "kp.p_svuid"),
+        ("real_gid", "kp.p_rgid"),
+        ("effective_gid", "kp.p_groups[0]"),
+        ("saved_gid", "kp.p_svuid"),
+        ("ttynr", "kp.p_tdev"),
+        ("create_time", "PSUTIL_KPT2DOUBLE(kp.p_ustart)"),
+        ("ctx_switches_vol", "kp.p_uru_nvcsw"),
+        ("ctx_switches_unvol", "kp.p_uru_nivcsw"),
+        ("read_io_count", "kp.p_uru_inblock"),
+        ("write_io_count", "kp.p_uru_oublock"),
+        ("user_time", "PSUTIL_KPT2DOUBLE(kp.p_uutime)"),
+        ("sys_time", "PSUTIL_KPT2DOUBLE(kp.p_ustime)"),
+        ("ch_user_time", "kp.p_uctime_sec+kp.p_uctime_usec/1000000.0"),
+        ("ch_sys_time", "kp.p_uctime_sec+kp.p_uctime_usec/1000000.0"),
+        ("rss", "rss"),
+        ("vms", "vms"),
+        ("memtext", "memtext"),
+        ("memdata", "memdata"),
+        ("memstack", "memstack"),
+        ("cpunum", "oncpu"),
+        ("name", "py_name") ]),
+    (("osx.kinfo_proc_map", "macos"),
+      [ ("ppid", "kp.kp_eproc.e_ppid"),
+        ("ruid", "kp.kp_eproc.e_pcred.p_ruid"),
+        ("euid", "kp.kp_eproc.e_ucred.cr_uid"),
+        ("suid", "kp.kp_eproc.e_pcred.p_svuid"),
+        ("rgid", "kp.kp_eproc.e_pcred.p_rgid"),
+        ("egid", "kp.kp_eproc.e_ucred.cr_groups[0]"),
+        ("sgid", "kp.kp_eproc.e_pcred.p_svgid"),
+        ("ttynr", "kp.kp_eproc.e_tdev"),
+        ("ctime", "PSUTIL_TV2DOUBLE(kp.kp_proc.p_starttime)"),
+        ("status", "kp.kp_proc.p_stat"),
+        ("name", "py_name") ]),
+    (("osx.pidtaskinfo_map", "macos"),
+      [ ("cpuutime", "total_user/1000000000.0"),
+        ("cpustime", "total_system/1000000000.0"),
+        ("rss", "pti.pti_resident_size"),
+        ("vms", "pti.pti_virtual_size"),
+        ("pfaults", "pti.pti_faults"),
+        ("pageins", "pti.pti_pageins"),
+        ("numthreads", "pti.pti_threadnum"),
+        ("volctxsw", "pti.pti_csw") ]),
+    (("sunos.proc_info_map", "sunos"),
+      [ ("ppid", "info.pr_ppid"),
+        ("rss", "info.pr_rssize"),
+        ("vms", "info.pr_size"),
+        ("create_time", "PSUTIL_TV2DOUBLE(info.pr_start)"),
+        ("nice", "info.pr_lwp.pr_nice"),
+        ("num_threads", "info.pr_nlwp"),
+        ("status", "info.pr_lwp.pr_state"),
+        ("ttynr", "info.pr_ttydev"),
+        ("uid", "info.pr_uid"),
+        ("euid", "info.pr_euid"),
+        ("gid", "info.pr_gid"),
+        ("egid", "info.pr_egid") ]),
+    (("windows.pinfo_map", "windows"),
+      [ ("num_handles", "process->HandleCount"),
+        ("ctx_switches", "ctx_switches"),
+        ("user_time", "user_time"),
+        ("kernel_time", "kernel_time"),
+        ("create_time", "create_time"),
+        ("num_threads", "process->NumberOfThreads"),
+        ("io_rcount", "process->ReadOperationCount.QuadPart"),
+        ("io_wcount", "process->WriteOperationCount.QuadPart"),
+        ("io_rbytes", "process->ReadTransferCount.QuadPart"),
+        ("io_wbytes", "process->WriteTransferCount.QuadPart"),
+        ("io_count_others", "process->OtherOperationCount.QuadPart"),
+        ("io_bytes_others", "process->OtherTransferCount.QuadPart"),
+        ("num_page_faults", "process->PageFaultCount"),
+        ("peak_wset", "process->PeakWorkingSetSize"),
+        ("wset", "process->WorkingSetSize"),
+        ("peak_paged_pool", "process->QuotaPeakPagedPoolUsage"),
+        ("paged_pool", "process->QuotaPagedPoolUsage"),
+        ("peak_non_paged_pool", "process->QuotaPeakNonPagedPoolUsage"),
+        ("non_paged_pool", "process->QuotaNonPagedPoolUsage"),
+        ("pagefile", "process->PagefileUsage"),
+        ("peak_pagefile", "process->PeakPagefileUsage"),
+        ("mem_private", "process->PrivatePageCount") ]) ]
+
+
+/-- native tuples that the Python side unpacks positionally (no slot map): (native function, identity) →
+    (what the position means, C expression), in the order of the documented namedtuple fields -/
+def tupleCExpr : List ((String × String) × List (String × String)) :=
+  [ (("proc_cred", "sunos"),
+      [ ("real uid", "info.pr_ruid"), ("effective uid", "info.pr_euid"), ("saved uid", "info.pr_suid"),
+        ("real gid", "info.pr_rgid"), ("effective gid", "info.pr_egid"), ("saved gid", "info.pr_sgid") ]),
+    (("proc_cpu_times", "sunos"),
+      [ ("user", "PSUTIL_TV2DOUBLE(info.pr_utime)"), ("system", "PSUTIL_TV2DOUBLE(info.pr_stime)"),
+        ("children user", "PSUTIL_TV2DOUBLE(info.pr_cutime)"), ("children system", "PSUTIL_TV2DOUBLE(info.pr_cstime)") ]),
+    (("proc_num_ctx_switches", "sunos"), [ ("voluntary", "info.pr_vctx"), ("involuntary", "info.pr_ictx") ]),
+    (("proc_cred", "aix"),
+      [ ("real uid", "info.pr_ruid"), ("effective uid", "info.pr_euid"), ("saved uid", "info.pr_suid"),
+        ("real gid", "info.pr_rgid"), ("effective gid", "info.pr_egid"), ("saved gid", "info.pr_sgid") ]),
+    (("proc_cpu_times", "aix"),
+      [ ("user", "TV2DOUBLE(info.pr_utime)"), ("system", "TV2DOUBLE(info.pr_stime)"),
+        ("children user", "TV2DOUBLE(info.pr_cutime)"), ("children system", "TV2DOUBLE(info.pr_cstime)") ]),
+    (("proc_num_ctx_switches", "aix"), [ ("voluntary", "p->pi_ru.ru_nvcsw"), ("involuntary", "p->pi_ru.ru_nivcsw") ]),
+    (("proc_io_counters", "aix"),
+      [ ("read count", "procinfo.inOps"), ("write count", "procinfo.outOps"),
+        ("read bytes", "procinfo.inBytes"), ("write bytes", "procinfo.outBytes") ]),
+    (("proc_times", "windows"),
+      [ ("user", "(ftUser.dwHighDateTime*HI_T+ftUser.dwLowDateTime*LO_T)"),
+        ("system", "(ftKernel.dwHighDateTime*HI_T+ftKernel.dwLowDateTime*LO_T)"),
+        ("create time", "psutil_FiletimeToUnixTime(ftCreate)") ]),
+    (("proc_memory_info", "windows"),
+      [ ("num_page_faults", "cnt.PageFaultCount"), ("peak_wset", "cnt.PeakWorkingSetSize"), ("wset", "cnt.WorkingSetSize"),
+        ("peak_paged_pool", "cnt.QuotaPeakPagedPoolUsage"), ("paged_pool", "cnt.QuotaPagedPoolUsage"),
+        ("peak_nonpaged_pool", "cnt.QuotaPeakNonPagedPoolUsage"), ("nonpaged_pool", "cnt.QuotaNonPagedPoolUsage"),
+        ("pagefile", "cnt.PagefileUsage"), ("peak_pagefile", "cnt.PeakPagefileUsage"), ("private", "cnt.PrivateUsage") ]),
+    (("proc_io_counters", "windows"),
+      [ ("read_count", "IoCounters.ReadOperationCount"), ("write_count", "IoCounters.WriteOperationCount"),
+        ("read_bytes", "IoCounters.ReadTransferCount"), ("write_bytes", "IoCounters.WriteTransferCount"),
+        ("other_count", "IoCounters.OtherOperationCount"), ("other_bytes", "IoCounters.OtherTransferCount") ]) ]
+
+/-- Windows: the fields of `pmem` after `rss`, `vms` are the positions of `proc_memory_info`'s tuple, in order -/
+def winMemTupleFields : List String := winPmemFields.drop 2
+
 /-! ## 4. Post-processing -/
 
 /-- a MAC with fewer than six groups is completed with null groups, and nothing else changes -/
@@ -392,8 +590,8 @@ inductive FrontClass
 /-- every `if` / conditional expression inside a function or class body of `psutil/__init__.py`
     whose test names a platform constant: (where, test, classification), in source order -/
 def frontBranches : List (String × String × FrontClass) :=
-  [ ("Process._get_ident", "WINDOWS", .notModelled),
-    ("Process.__eq__", "OPENBSD or NETBSD", .notModelled),
+  [ ("Process._get_ident", "WINDOWS", .modelled),
+    ("Process.__eq__", "OPENBSD or NETBSD", .modelled),
     ("Process.oneshot", "POSIX", .noValue),
     ("Process.oneshot", "POSIX", .noValue),
     ("Process.ppid", "POSIX", .modelled),
@@ -405,8 +603,8 @@ def frontBranches : List (String × String × FrontClass) :=
     ("Process.cpu_affinity", "LINUX", .modelled),
     ("Process", "WINDOWS", .apiSurface),
     ("Process", "POSIX", .apiSurface),
-    ("Process._send_signal", "OPENBSD and pid_exists(pid)", .notModelled),
-    ("Process.send_signal", "POSIX", .notModelled),
+    ("Process._send_signal", "OPENBSD and pid_exists(pid)", .modelled),
+    ("Process.send_signal", "POSIX", .modelled),
     ("Process.suspend", "POSIX", .noValue),
     ("Process.resume", "POSIX", .noValue),
     ("Process.terminate", "POSIX", .noValue),
@@ -450,5 +648,67 @@ def usernameExpected (posix : Bool) (realUid : Nat) (pw : Option String) (native
 /-- `pid_exists(0)` on POSIX: PID 0 is never signalled; it exists iff it is listed -/
 def pidExistsExpected (posix : Bool) (pid : Int) (pids : List Nat) (native : Bool) : Bool :=
   if pid < 0 then false else if posix && pid == 0 then 0 ∈ pids else native
+
+/-! ## 6. Front end, round 2: identity, equality, signals; documented namedtuple fields -/
+
+/-- `Process(pid)`: the identity is (pid, creation time). "Use create_time() fast method … we'll get
+    AccessDenied for most ADMIN processes, but that's fine": on Windows the identity query never
+    takes the slower fall-back, so a permission failure leaves `(pid, None)`; the same for a zombie
+    ("Zombies can still be queried by this class"); a "no such process" failure is
+    `NoSuchProcess("process PID not found")` unless the caller asked to ignore it (then the object
+    is marked gone); any other error is not the constructor's business.
+    Stated through the contract cell of the failed creation-time query. -/
+def initExpected (p : Platform) (e : Err) (env : Env) (ignoreNsp : Bool) : InitRes :=
+  match contract p.family e env with
+  | .ad _ _ | .zombie _ _ => .built none none false
+  | .nsp _ _ => if ignoreNsp then .built none none true else .raisesNsp
+  | .raw e' => .raisesOther e'
+  | _ => .unmodelled
+
+/-- "Zombie processes on Open/NetBSD have a creation time of 0.0. This covers the case when a
+    process started normally (so it has a ctime), then it turned into a zombie": there, two
+    objects for the same pid of which the first has a creation time and the second has none are
+    the same process exactly when the process is a zombie now; everywhere else (and on every other
+    platform) equality is equality of (pid, creation time). -/
+def eqExpected (openOrNetbsd : Bool) (i1 i2 : Nat × Option Nat) (zombieNow : Bool) : Bool :=
+  let hasCtime : Option Nat → Bool := fun c => c.isSome && c != some 0
+  if openOrNetbsd && i1.1 == i2.1 && hasCtime i1.2 && !hasCtime i2.2 then zombieNow
+  else i1.1 == i2.1 && i1.2 == i2.2
+
+/-- is the process a zombie now, as far as `status()` can tell (an error: not known to be one) -/
+def zombieNow : StatusRes → Bool
+  | .status z => z
+  | .zombieExc => true
+  | .error => false
+
+/-- POSIX signals: the contract again, at the front end. "os.kill() lies in case of zombie
+    processes" on OpenBSD: ESRCH for a pid that still exists is ZombieProcess there; PID 0 is
+    never signalled. -/
+def sendSignalPosixExpected (openbsd : Bool) (pid : Nat) (k : KillRes) (pidExists : Bool) : SigRes :=
+  if pid == 0 then .valueError
+  else match k with
+    | .ok => .sent
+    | .esrch => if openbsd && pidExists then .zombie true else .nsp true
+    | .eperm => .ad true
+    | .other e => .raw e
+
+/-- docs/index.rst, `send_signal`: "On Windows only SIGTERM, CTRL_C_EVENT and CTRL_BREAK_EVENT signals
+    are supported and SIGTERM is treated as an alias for kill()"; `terminate`: "On Windows this is an
+    alias for kill()". A console event for a process that no longer runs is NoSuchProcess. -/
+def sendSignalWinExpected (sig : WinSig) (running : Bool) : WinSigAct :=
+  match sig with
+  | .sigterm => frontKillWin
+  | .ctrlC | .ctrlBreak => if running then .osKill else .nspNotRunning
+  | .otherSig => if running then .valueError else .nspNotRunning
+
+/-- Documented fields that the platform's namedtuple does NOT have (identity, function, field).
+    Observations beyond the property's statement (it promises function and constant NAMES):
+    docs/index.rst marks `nice` of `cpu_times()` and `active` / `inactive` of `virtual_memory()`
+    as *(UNIX)*, but the Solaris and AIX tuples are `scputimes(user, system, idle, iowait)` and
+    `svmem(total, available, percent, used, free)`. Kept exact by
+    `C20_api_fields_gaps_characterisation`. -/
+def fieldGaps : List (String × String × String) :=
+  [ ("sunos", "cpu_times", "nice"), ("sunos", "virtual_memory", "active"), ("sunos", "virtual_memory", "inactive"),
+    ("aix", "cpu_times", "nice"), ("aix", "virtual_memory", "active"), ("aix", "virtual_memory", "inactive") ]
 
 end Psutil.C20.Spec
